@@ -61,6 +61,10 @@ mod unpublished;
 mod vet;
 mod violations;
 mod wildcard;
+#[cfg(feature = "verif")]
+mod verif {
+    include!(env!("VET_VERIF_HARNESS"));
+}
 
 // Some room above and below
 const DEFAULT_VER: u64 = 10;
